@@ -179,6 +179,30 @@ func driveSchnorr(c *ctx) {
 				}
 			}
 		}
+		// every message length up to a few hash blocks beyond anything a stack buffer would hold (round 8): the challenge and nonce hashes
+		// cover the WHOLE message whatever its length, for two keys (the first is d = 1, the second has an odd-y public point or not as it comes)
+		if ki == 0 || ki == 4 {
+			top := 330
+			if c.thorough() {
+				top = 700
+			}
+			for ml := 2; ml <= top; ml++ {
+				if ki == 4 && !c.thorough() && ml%3 != 0 {
+					continue
+				}
+				msg := randBytes(rng, ml)
+				aux := randBytes(rng, 32)
+				sig, err := sk.Sign(&fixedReader{append([]byte{}, aux...)}, msg, nil)
+				c.E("schnorr.Sign", "kind", "public", "d", h32(d), "aux", hx(aux), "msg", hx(msg), "ok", err == nil, "sig", hx(sig),
+					"pub", hx(pk.Bytes()), "verified", err == nil && pk.Verify(msg, sig), "nilmsg", false)
+				if err == nil {
+					verify(pk, msg, sig, false)
+					m2 := append([]byte{}, msg...)
+					m2[len(m2)-1] ^= 1 // the last byte matters
+					verify(pk, m2, sig, false)
+				}
+			}
+		}
 		// a failing entropy reader: no signature
 		sigf, errf := sk.Sign(&fixedReader{randBytes(rng, ki%32)}, []byte("m"), nil)
 		c.E("schnorr.Sign", "kind", "reader_fail", "d", h32(d), "aux", "", "msg", hx([]byte("m")), "ok", errf == nil, "sig", hx(sigf), "pub", hx(pk.Bytes()), "verified", false)
